@@ -97,6 +97,15 @@ def make_plan(seed: int, tier: str, index: int) -> dict[str, Any]:
                         small=True)
         if g.random() < 0.06:
             gen.add_far_events(g, d)
+        if g.random() < 0.15:
+            # a [Song] field written twice with different values (accepted: one of them wins -
+            # always the same one)
+            cand = [m for m in d["meta"]]
+            if cand:
+                m0 = g.choice(cand)
+                alt = {"Resolution": str(g.choice([r for r in gen.RESOLUTION_POOL if str(r) != m0[1]] or [96]))}.get(
+                    m0[0], m0[1][:-1] + 'x"' if m0[1].endswith('"') else (m0[1] + "1" if m0[1].isdigit() else m0[1]))
+                d["meta"].insert(g.randint(0, len(d["meta"])), [m0[0], alt])
         if big_run and i == 0 and d["tracks"]:
             # one chart of a few thousand lines (sizes, counts and depths that the small texts
             # never reach); such runs have one client
@@ -130,6 +139,14 @@ def make_plan(seed: int, tier: str, index: int) -> dict[str, Any]:
                     if pool_secs:
                         line = g.choice(g.choice(pool_secs)[1])
                 secs[si][1].insert(g.randint(0, len(secs[si][1])), line)
+            if g.random() < 0.3:
+                # an open-note line placed first on a tick that also has fretted notes (accepted
+                # today; whatever it yields, it yields it always)
+                isecs = [sx for sx in secs[3:] if any(" = N " in ln for ln in sx[1])]
+                if isecs:
+                    sx = g.choice(isecs)
+                    k0 = g.choice([i for i, ln in enumerate(sx[1]) if " = N " in ln])
+                    sx[1].insert(k0, sx[1][k0].split(" = ")[0] + " = N 7 0")
             text = gen.render_sections(secs, newline=nl)
         else:
             text = gen.render(d, newline=nl)
@@ -438,7 +455,8 @@ def _fresh_reference(op: dict[str, Any], data: bytes, hashseed: int,
     req = {"path": path, "select": op.get("select"), "via": op.get("via"),
            "logging_off": bool(op.get("logging_off")),
            "reader": op.get("reader"), "newline": op.get("newline"), "encoding": op.get("encoding")}
-    p = subprocess.run([env.PYTHON, "-m", "detsim.freshref"], input=json.dumps(req).encode("utf-8"),
+    p = subprocess.run([env.PYTHON] + env.flavour_flags(flavour) + ["-m", "detsim.freshref"],
+                       input=json.dumps(req).encode("utf-8"),
                        capture_output=True, timeout=120,
                        env=env.fresh_interpreter_env(hashseed, flavour), cwd=env.VERIF_ROOT)
     os.unlink(path)
